@@ -89,3 +89,26 @@ def exc_key(exc):
     # message template: drop quoted/numeric specifics
     tmpl = re.sub(r"'[^']*'|\"[^\"]*\"|\d+", "#", msg)[:60]
     return "%s@%s" % (type(exc).__name__, innermost_nbdime_frame(exc)), tmpl
+
+
+def count_calls(col, funcs, prefix="reached:"):
+    """sys.monitoring PY_START counters on the given functions (counting mode only): evidence of which
+    heuristic branches / arms a workload actually reached.  funcs: {label: function}"""
+    import sys
+    mon = sys.monitoring
+    tool = mon.PROFILER_ID
+    try:
+        mon.use_tool_id(tool, "vmon-count")
+    except ValueError:
+        return False
+    codes = {f.__code__: label for label, f in funcs.items()}
+
+    def on_start(code, offset):
+        label = codes.get(code)
+        if label is None:
+            return mon.DISABLE
+        col.count(prefix + label)
+    mon.register_callback(tool, mon.events.PY_START, on_start)
+    for code in codes:
+        mon.set_local_events(tool, code, mon.events.PY_START)
+    return True
